@@ -440,7 +440,6 @@ def aligner_locate_distance(c):
     c.mutant("last = min(m, k + 1)", "last = min(m, k)")
     c.mutant("if last < m:\n            last += 1", "if last < m:\n            pass")
     c.mutant("cost_deletion = previous_entry.cost + deletion_cost", "cost_deletion = current_entry.cost + deletion_cost")
-    c.mutant("min_n = max(0, n - m - k)", "min_n = max(0, n - m - k + 1)")
 
 
 # ------------------------------------------------------------------------------ finite, exhaustive parts
@@ -550,6 +549,10 @@ def extra_checks(res, tier, seed, known, log):
     if fails:
         path = runner.write_replay("C01", "finite_tables", {"property": "C01", "obligation": "finite:tables_and_flags", "failures": fails[:20]})
         res.violations.append({"replay": path})
+    # cross-check of the spec functions (Dist, effN, placement) against the real match_to of all eight classes
+    runner.runtime_standin(res, "C01", "c01", "match_to", seed, 4000 if tier == "quick" else 60000, 40 if tier == "quick" else 600,
+                           prefix="C01:", crosscheck=True,
+                           label="match_to of the eight adapter classes vs brute-force oracle (cross-check of the spec functions, not evidence)")
 
 
 # ------------------------------------------------------------------------------ comparers (anchored adapters without indels)
